@@ -68,18 +68,34 @@ def set_entropy(seed: int) -> None:
             g.bit_generator.state = type(g.bit_generator)(int(kids[2]) + i).state
 
 
+_MEMO_CLEARERS: dict[str, Any] = {"modules": -1, "fns": []}
+
+
 def clear_memos() -> int:
     """Evict every functools cache of the package (always legal)."""
-    n = 0
-    for name, mod in list(sys.modules.items()):
-        if mod is None or not name.startswith("incomplete_cooperative"):
-            continue
-        for attr in list(vars(mod).values()):
-            cc = getattr(attr, "cache_clear", None)
-            if callable(cc):
-                cc()
-                n += 1
-    return n
+    names = [n for n in sys.modules if n.startswith("incomplete_cooperative")]
+    if len(names) != _MEMO_CLEARERS["modules"]:
+        fns = []
+        seen: set[int] = set()
+        for name in names:
+            mod = sys.modules.get(name)
+            if mod is None:
+                continue
+            for attr in list(vars(mod).values()):
+                cc = getattr(attr, "cache_clear", None)
+                if callable(cc) and id(attr) not in seen:
+                    seen.add(id(attr))
+                    fns.append(cc)
+                if isinstance(attr, type) and getattr(attr, "__module__", None) == name:
+                    for meth in list(vars(attr).values()):
+                        cc = getattr(getattr(meth, "__func__", meth), "cache_clear", None)
+                        if callable(cc) and id(meth) not in seen:
+                            seen.add(id(meth))
+                            fns.append(cc)
+        _MEMO_CLEARERS["modules"], _MEMO_CLEARERS["fns"] = len(names), fns
+    for cc in _MEMO_CLEARERS["fns"]:
+        cc()
+    return len(_MEMO_CLEARERS["fns"])
 
 
 _ESC = {"n": 0}
@@ -248,7 +264,19 @@ def record_pristine() -> None:
             continue
         if ".tests" in name or name in _PRISTINE:
             continue
-        _PRISTINE[name] = {"owners": [(owner, _snapshot_owner(owner)) for owner, _ in _holders(mod)]}
+        owners = []
+        for owner, _ in _holders(mod):
+            snap = _snapshot_owner(owner)
+            tracked = {k: v for k, v in snap.items() if v[0] != "other"}
+            owners.append((owner, snap, tracked, len(vars(owner))))
+        _PRISTINE[name] = {"owners": [(o, s_) for o, s_, _, _ in owners], "fast": owners}
+
+
+def _same(obj, saved) -> bool:
+    try:
+        return len(obj) == len(saved) and bool(obj == saved)
+    except Exception:
+        return False
 
 
 def restore_pristine() -> int:
@@ -256,26 +284,25 @@ def restore_pristine() -> int:
     record_pristine()
     repaired = 0
     for name, rec in _PRISTINE.items():
-        for owner, snap in rec["owners"]:
+        for owner, snap, tracked, n_attrs in rec["fast"]:
             cur = vars(owner)
-            for k in [k for k in list(cur) if k not in snap and not (k.startswith("__") and k.endswith("__"))]:
-                v = cur[k]
-                if isinstance(v, (_types.ModuleType, _types.FunctionType, type)) or callable(v):
-                    continue
-                try:
-                    delattr(owner, k)  # a lazily created global / class attribute holding data
-                    repaired += 1
-                except Exception:
-                    pass
-            for k, (kind, obj, saved) in snap.items():
+            if len(cur) != n_attrs:
+                for k in [k for k in list(cur) if k not in snap and not (k.startswith("__") and k.endswith("__"))]:
+                    v = cur[k]
+                    if isinstance(v, (_types.ModuleType, _types.FunctionType, type)) or callable(v):
+                        continue
+                    try:
+                        delattr(owner, k)  # a lazily created global / class attribute holding data
+                        repaired += 1
+                    except Exception:
+                        pass
+            for k, (kind, obj, saved) in tracked.items():
                 now = cur.get(k, None)
                 if kind == "container":
                     if now is not obj:
                         setattr(owner, k, obj)
                         repaired += 1
-                    same = len(obj) == len(saved) and (list(obj.items()) == list(saved.items()) if isinstance(obj, dict)
-                                                        else (obj == saved))
-                    if not same:
+                    if not _same(obj, saved):
                         obj.clear()
                         (obj.update if isinstance(obj, (dict, set)) else obj.extend)(saved)
                         repaired += 1
@@ -289,8 +316,92 @@ def restore_pristine() -> int:
                         except Exception:
                             setattr(owner, k, saved.copy())
                         repaired += 1
-                elif kind == "scalar":
-                    if now is not obj and not (now == obj and type(now) is type(obj)):
-                        setattr(owner, k, obj)
-                        repaired += 1
+                elif now is not obj and not (now == obj and type(now) is type(obj)):
+                    setattr(owner, k, obj)
+                    repaired += 1
     return repaired
+
+
+# ------------------------------------------------- several simulated processes, one file system
+import copy as _copy  # noqa: E402
+
+
+def capture_process_state() -> dict:
+    """The package's process-global data state (what a separate OS process would own privately)."""
+    record_pristine()
+    state: dict = {}
+    for name, rec in _PRISTINE.items():
+        for idx, (owner, snap) in enumerate(rec["owners"]):
+            cur = vars(owner)
+            entry: dict = {}
+            for k, v in list(cur.items()):
+                if k.startswith("__") and k.endswith("__"):
+                    continue
+                if k in snap:
+                    kind, obj, saved = snap[k]
+                    if kind == "container":
+                        # caches start empty: copy them deeply; registries keep their (shared, immutable) members
+                        entry[k] = ("container", _copy.deepcopy(v) if len(saved) == 0 else type(v)(v))
+                    elif kind == "array":
+                        entry[k] = ("array", np.array(v, copy=True))
+                    elif kind == "scalar":
+                        entry[k] = ("scalar", v)
+                elif not (isinstance(v, (_types.ModuleType, _types.FunctionType, type)) or callable(v)):
+                    try:
+                        entry[k] = ("new", _copy.deepcopy(v))
+                    except Exception:
+                        entry[k] = ("new", v)
+            state[(name, idx)] = entry
+    return state
+
+
+def apply_process_state(state: dict | None) -> None:
+    """Make the given simulated process current (None = a freshly started process)."""
+    restore_pristine()
+    clear_memos()
+    if state is None:
+        return
+    for name, rec in _PRISTINE.items():
+        for idx, (owner, snap) in enumerate(rec["owners"]):
+            for k, (kind, val) in state.get((name, idx), {}).items():
+                if kind == "container" and k in snap:
+                    obj = snap[k][1]
+                    obj.clear()
+                    (obj.update if isinstance(obj, (dict, set)) else obj.extend)(_copy.deepcopy(val) if len(snap[k][2]) == 0 else val)
+                elif kind == "array" and k in snap:
+                    try:
+                        snap[k][1][...] = val
+                    except Exception:
+                        setattr(owner, k, val.copy())
+                elif kind in ("scalar", "new"):
+                    setattr(owner, k, _copy.deepcopy(val) if kind == "new" else val)
+
+
+class SimProcesses:
+    """Several simulated OS processes sharing one (simulated) file system.
+
+    Exactly one is current; switching saves the current one's package state and installs the other's.
+    functools caches cannot be saved: they are evicted on every switch (always legal).
+    """
+
+    def __init__(self, sim: Sim) -> None:
+        self.sim = sim
+        self.current = 0
+        self.states: dict[int, dict | None] = {}
+
+    def switch(self, pid: int) -> None:
+        if pid == self.current:
+            return
+        self.states[self.current] = capture_process_state()
+        apply_process_state(self.states.get(pid))
+        self.sim.event("process-switch", self.current, pid)
+        self.sim.faults["save_issued_by_another_process"] += 1
+        self.current = pid
+
+    def restart(self, pid: int | None = None) -> None:
+        """The (current) process ends and a new one starts: only the file system survives."""
+        pid = self.current if pid is None else pid
+        self.states.pop(pid, None)
+        if pid == self.current:
+            apply_process_state(None)
+        self.sim.event("process-restart", pid)
